@@ -7,6 +7,8 @@ pub mod c02;
 pub mod c03;
 pub mod c04;
 pub mod c05;
+pub mod c06;
+pub mod c07;
 pub mod c08;
 pub mod c09;
 pub mod c10;
@@ -16,13 +18,14 @@ pub mod c17;
 pub mod c18;
 
 pub fn dispatch(run: &mut Run, extra: &[String]) -> bool {
-    let _ = extra;
     match run.prop.as_str() {
         "C01" => c01::run(run),
         "C02" => c02::run(run),
         "C03" => c03::run(run),
         "C04" => c04::run(run),
         "C05" => c05::run(run),
+        "C06" => c06::run(run, extra),
+        "C07" => c07::run(run, extra),
         "C08" => c08::run(run),
         "C09" => c09::run(run),
         "C10" => c10::run(run),
